@@ -136,3 +136,51 @@ def getOrCompute {κ ν} [BEq κ] (f : κ → ν) (c : List (κ × ν)) (k : κ)
   | none => (f k, c ++ [(k, f k)])
 
 end Pxv.Gen
+
+namespace Pxv.Gen
+
+/-! ### The SDK manifest (`GeneratedManifest::overwrite`, compiler/pavexc/src/compiler/generated_app.rs)
+
+A TOML document is modelled as its top-level tables in document order, a table as its entries in document
+order, an entry's value as the bytes it renders to. `doc[k] = v` of `toml_edit` replaces the item in place when
+the key exists and appends it otherwise. -/
+
+abbrev Tbl := List (String × List Nat)
+
+/-- `table[k] = v` -/
+def Tbl.set (t : Tbl) (k : String) (v : List Nat) : Tbl :=
+  if t.any (·.1 == k) then t.map (fun e => if e.1 == k then (k, v) else e) else t ++ [(k, v)]
+
+abbrev Doc := List (String × Tbl)
+
+/-- `doc[k] = Item::Table(tbl)` -/
+def Doc.setTable (d : Doc) (k : String) (tbl : Tbl) : Doc :=
+  if d.any (·.1 == k) then d.map (fun e => if e.1 == k then (k, tbl) else e) else d ++ [(k, tbl)]
+
+/-- `doc[k][k2] = v` (an absent table is created at the end) -/
+def Doc.setIn (d : Doc) (k k2 : String) (v : List Nat) : Doc :=
+  if d.any (·.1 == k) then d.map (fun e => if e.1 == k then (k, Tbl.set e.2 k2 v) else e) else d ++ [(k, [(k2, v)])]
+
+/-- ↔ `GeneratedManifest`: the dependencies (a `BTreeMap`: sorted by name, one entry per name) and the edition. -/
+structure GenManifest where
+  deps : Tbl
+  edition : List Nat
+
+/-- ↔ `GeneratedManifest::overwrite`: the `[dependencies]` table is REPLACED, the edition is set. -/
+def GenManifest.overwrite (g : GenManifest) (d : Doc) : Doc :=
+  (d.setTable "dependencies" g.deps).setIn "package" "edition" g.edition
+
+/-- ↔ the manifest `persist_manifest` starts from when the file does not exist. -/
+def freshDoc : Doc := [("package", [("name", [1]), ("version", [2])])]
+
+/-- ↔ `persist_manifest`: edit the existing document, or a fresh one. -/
+def sdkManifest (g : GenManifest) (existing : Option Doc) : Doc :=
+  g.overwrite (existing.getD freshDoc)
+
+/-- The variant that updates the entries of the existing `[dependencies]` table one by one instead of replacing
+    the table (what a "keep the decorations" refactor would do): kept here to show what the theorem excludes. -/
+def GenManifest.overwriteInPlace (g : GenManifest) (d : Doc) : Doc :=
+  let cur : Tbl := ((d.find? (·.1 == "dependencies")).map (·.2)).getD []
+  ((d.setTable "dependencies" (g.deps.foldl (fun t e => Tbl.set t e.1 e.2) cur))).setIn "package" "edition" g.edition
+
+end Pxv.Gen
